@@ -97,6 +97,65 @@ func searchShape(prog *Program, pkgPath, constName string, wantState bool) []*le
 	return out
 }
 
+// enqueueableShape (C08, C17): the dispatch query selects only unclaimed (init) tasks, none whose root promise
+// has another task recorded as enqueued or claimed, and one task per root promise. The sibling test is a
+// correlated subquery, which the SQL semantics of the engine treats as an uninterpreted predicate, so its
+// shape is decided on the parsed statement.
+func enqueueableShape(prog *Program, pkgPath string) []*lemmaQuery {
+	const constName = "TASK_SELECT_ENQUEUEABLE_STATEMENT"
+	where := strings.TrimPrefix(pkgPath, repoModule+"/") + ":" + constName
+	text, ok := prog.constString(pkgPath, constName)
+	if !ok {
+		return []*lemmaQuery{structural("statement "+constName+" exists", where, false, "constant not found")}
+	}
+	stmts, err := ParseSQL(text)
+	if err != nil || len(stmts) != 1 || stmts[0].Select == nil {
+		return []*lemmaQuery{structural(constName+" is a SELECT of the verified SQL subset", where, false, fmt.Sprint(err))}
+	}
+	sel := stmts[0].Select
+	isInt := func(e SQLExpr, v int64) bool { z, ok := e.(SQLInt); return ok && z.V == v }
+	initOnly, siblings := false, false
+	for _, c := range conjuncts(sel.Where) {
+		switch n := c.(type) {
+		case SQLBin:
+			if n.Op == "=" && isCol(n.L, "state") && isInt(n.R, 1) {
+				initOnly = true
+			}
+		case SQLExists:
+			if !n.Neg || n.Sel == nil || n.Sel.From != sel.From {
+				continue
+			}
+			sameRoot, busy := false, false
+			for _, ic := range conjuncts(n.Sel.Where) {
+				switch in := ic.(type) {
+				case SQLBin:
+					l, lok := in.L.(SQLCol)
+					r, rok := in.R.(SQLCol)
+					if in.Op == "=" && lok && rok && l.Name == "root_promise_id" && r.Name == "root_promise_id" && l.Table != r.Table {
+						sameRoot = true
+					}
+				case SQLIn:
+					if c, ok := in.E.(SQLCol); ok && c.Name == "state" && !in.Neg && len(in.List) == 2 {
+						if (isInt(in.List[0], 2) && isInt(in.List[1], 4)) || (isInt(in.List[0], 4) && isInt(in.List[1], 2)) {
+							busy = true
+						}
+					}
+				}
+			}
+			if sameRoot && busy && len(conjuncts(n.Sel.Where)) == 2 {
+				siblings = true
+			}
+		}
+	}
+	onePerRoot := (len(sel.GroupBy) == 1 && sel.GroupBy[0] == "root_promise_id") || (len(sel.DistinctOn) == 1 && sel.DistinctOn[0] == "root_promise_id")
+	return []*lemmaQuery{
+		structural(constName+": only unclaimed tasks are selected (state = 1)", where, initOnly && len(conjuncts(sel.Where)) == 2, text),
+		structural(constName+": no task whose root promise has a task recorded as enqueued or claimed (NOT EXISTS sibling with state IN (2, 4))", where, siblings, text),
+		structural(constName+": one task per root promise (GROUP BY / DISTINCT ON root_promise_id)", where, onePerRoot, text),
+		structural(constName+": the batch size is a bound parameter (LIMIT ?)", where, sel.Limit != nil && isParam(sel.Limit), text),
+	}
+}
+
 // derivedIdLemmas (C05): the ids the server derives for registrations must be injective in the client ids
 // they are built from, otherwise two different registrations share one row. The format literal is read
 // from the current source of the deriving function; the query is pure string theory.
@@ -195,6 +254,26 @@ func resetDefaultLemmas(prog *Program) []*lemmaQuery {
 		}
 		out = append(out, structural("the "+be+" store keeps its data on shutdown by default (Config.Reset default:\"false\")", where, ok, detail))
 	}
+	// the default SQLite database is a file, not an in-memory database that dies with the process
+	{
+		pkg := repoModule + "/internal/app/subsystems/aio/store/sqlite"
+		ok := false
+		detail := "no Config.Path field"
+		if pp := prog.ppkg[pkg]; pp != nil && pp.Types != nil {
+			if obj := pp.Types.Scope().Lookup("Config"); obj != nil {
+				if st, isStruct := obj.Type().Underlying().(*types.Struct); isStruct {
+					for i := 0; i < st.NumFields(); i++ {
+						if st.Field(i).Name() == "Path" {
+							d := reflect.StructTag(st.Tag(i)).Get("default")
+							detail = st.Tag(i)
+							ok = d != "" && !strings.Contains(d, ":memory:") && !strings.Contains(d, "mode=memory") && !strings.HasPrefix(d, "file::")
+						}
+					}
+				}
+			}
+		}
+		out = append(out, structural("the sqlite store's default database is a file on disk (Config.Path default is not an in-memory database)", "internal/app/subsystems/aio/store/sqlite:Config.Path", ok, detail))
+	}
 	return out
 }
 
@@ -207,6 +286,11 @@ func extraObligations(prog *Program, prop, tier string) []*lemmaQuery {
 	case "C01", "C02", "C03", "C04", "C05", "C07", "C08", "C09", "C10", "C16", "C17", "C20":
 		// every property about stored client data depends on columns storing exactly what is written
 		out0 = schemaLemmas(prog)
+	}
+	if prop == "C08" || prop == "C17" {
+		for _, be := range []string{"sqlite", "postgres"} {
+			out0 = append(out0, enqueueableShape(prog, repoModule+"/internal/app/subsystems/aio/store/"+be)...)
+		}
 	}
 	if prop == "C17" {
 		// the Postgres search statements have the shape the paging argument needs (same obligations as C14)
